@@ -12,20 +12,25 @@ REAL bytes of every `out.save` to `run`, walks the in-memory system and the syst
 exactly as the pickler sees them, canonises all three with the Lean `canon`, and compares `dump` of the walked heap with
 the real opcode list.
   PROVED there: equal canonical forms ⇔ isomorphic reachable graphs incl. sharing and cycles (`canon_iso`, `iso_canon`);
-  the frame / identity / freshness lemmas of the unpickler; the round trip `canon (run (dump h r)) = canon h r` for EVERY heap
-  made of atoms, strings, bytes, tuples and lists (≤ 1000 elements) with arbitrary sharing and cycles
-  (`roundtrip_lists_tuples_partial`, by a simulation invariant between pickler memo and partially built unpickler cells);
-  and — `roundtrip_of_check` — the full isomorphism conclusion for every heap on which the evaluated check says `true`
-  (evaluated by the driver on every in-memory heap of every run, and by the kernel on a two-cycle of instances).
-  NOT PROVED: the round trip for ALL heaps (`RoundtripStatement`): the dict, set, class and INSTANCE cases of the simulation
-  (real `.save` heaps are mostly instances — they are covered by the per-run evaluation only).
-  NOT MODELLED (validated by the three-way comparison, or trusted): the C implementation `_pickle` versus the model (tied
-  only by the per-run comparison of opcodes and graphs); `find_class` in the fresh process (classes found by module path);
-  what `cls.__new__` / a reduce callable really returns; `sys.intern` of attribute names; the interpreter's singleton
-  strings (`""` and 1-character strings: the real unpickler always returns the singleton, a live graph may hold another object
-  with the same text, e.g. from `"".join` in `fix_seq` — the harness compares graphs modulo the identity of such strings); `__setstate__` (none of the
-  pickled classes has one — reported if that changes); the 8 bytes of `BINFLOAT` are opaque; the link between a decoded heap
-  and the `Comp.St` / `Inst` tree of this file (`snapshot`) is still made by the harness (`harness/snapshot.py`), not in Lean.
+  the frame / identity / freshness lemmas of the unpickler; and the ROUND TRIP `roundtrip`: for every heap that is
+  `Supported` — atoms, strings, bytes, tuples, lists, string-keyed dicts, classes, instances (`NEWOBJ` / `REDUCE`, dict items,
+  state + `BUILD`), an instance's state dict belonging to that instance alone; arbitrary sharing and cycles, in particular
+  cycles through instances (`s.wc.wc is s`) — `run (dump h r) = ok (h', r')` and `canon h' r' = canon h r`.  The hypothesis is
+  decidable (`supportedB`, `supportedB_sound`) and the driver evaluates it on every in-memory heap of every run: the real
+  `.save` heaps satisfy it, so for them the round trip of the abstract pickler / unpickler pair is a theorem.
+  `snapshotOfHeap` (model) reads the snapshot of THIS file's `finish_depends_on_snapshot` off a decoded heap; on every run
+  the driver decodes the real bytes, reads the snapshot and the harness compares it with the model's own `snapshot` of the
+  compile and with the snapshot of the graph reloaded in a fresh process (validated, not proved).
+  NOT PROVED: the round trip outside `Supported` (sets / frozensets, more than one batch of 1000 items, non-string dict keys,
+  instances with list items or constructor arguments; without any hypothesis the statement is false,
+  `roundtripStatement_false`); that `snapshotOfHeap (run bytes)` equals the model's `snapshot` (compared per run).
+  NOT MODELLED (validated by the per-run comparisons, or trusted): the C implementation `_pickle` versus the model (tied
+  by the per-run comparison of opcodes and graphs: Lean `dump` = real opcode list, Lean `run` on the real bytes = reloaded
+  graph); `find_class` in the fresh process (classes found by module path); what `cls.__new__` / a reduce callable really
+  returns; `sys.intern` of attribute names; the interpreter's singleton strings (`""` and 1-character strings: the real
+  unpickler always returns the singleton, a live graph may hold another object with the same text, e.g. from `"".join` in
+  `fix_seq` — the harness compares graphs modulo the identity of such strings); `__setstate__` (none of the pickled
+  classes has one — reported if that changes); the 8 bytes of `BINFLOAT` are opaque.
 What IS proved in THIS file, over the model of the saved state (`Comp.St` tables, the `Inst`/`SysSt` tree of
 `PepperModel/Comp.lean`, `Sys.lean`), the emitted statements (`PepperModel/Emit.lean`) and `finish`
 (`PepperModel/Finish.lean`):
